@@ -574,6 +574,95 @@ def suite_crash(seed, tier):
     return r
 
 
+# ------------------------------------------------------------------ suite: failures inside pool workers (C14)
+def worker_failure_violation(case, scenario, procs, ctx_name):
+    """run the parallel workflow with a failure that happens INSIDE a worker process and say what is
+    wrong afterwards (None if nothing): the run must fail, no final file may exist, and a repaired re-run
+    in the same directory must equal a fresh one.
+      scenario ("truncated-input", j): input file j is cut short on disk (valid header, half the rows)
+      scenario ("save-fails", r):      writing a round-r intermediate file fails (fork context: the patched
+                                       function is inherited by the workers)"""
+    import multiprocessing
+    import bblean.multiround as mr
+    with tempfile.TemporaryDirectory(prefix="verif_wfail_") as tmp:
+        tmp = Path(tmp)
+        (tmp / "in").mkdir()
+        paths = write_inputs(case, tmp / "in")
+        (tmp / "fresh").mkdir()
+        run_impl(case, tmp / "fresh", None, paths=paths)
+        ref = finals(read_dir(tmp / "fresh", case["nf"]))
+        out = tmp / "out"
+        out.mkdir()
+        ctx = multiprocessing.get_context(ctx_name)
+        kind, arg = scenario
+        saved = None
+        whole = None
+        if kind == "truncated-input":
+            whole = paths[arg].read_bytes()
+            hdr = whole.index(b"\n") + 1
+            paths[arg].write_bytes(whole[:hdr + (len(whole) - hdr) // 2])
+        else:
+            saved = mr._numpy_streaming_save
+
+            def failing(bufs, path, *a, **kw):
+                if Path(path).name.startswith(f"round-{arg}-"):
+                    raise OSError(28, "No space left on device")
+                return saved(bufs, path, *a, **kw)
+            mr._numpy_streaming_save = failing
+        failed = False
+        try:
+            run_impl({**case, "cfg": {**case["cfg"], "cleanup": False}}, out, None, mp_context=ctx, procs=procs,
+                     paths=paths)
+        except Exception:
+            failed = True
+        finally:
+            if saved is not None:
+                mr._numpy_streaming_save = saved
+            if whole is not None:
+                paths[arg].write_bytes(whole)
+        names = sorted(p.name for p in out.iterdir())
+        if not failed:
+            return (f"a worker process failed ({kind} {arg}) but the run returned normally; the directory holds "
+                    f"{[n for n in names if not n.startswith('round-')]}")
+        if any(n in names for n in ("clusters.pkl", "cluster-centroids-packed.pkl")):
+            return f"a run that failed inside a worker ({kind} {arg}) left a final cluster file behind"
+        try:
+            run_impl(case, out, None, mp_context=ctx, procs=procs, paths=paths)
+        except Exception as e:
+            return f"the re-run after a worker failure ({kind} {arg}) fails: {type(e).__name__}: {e}"[:240]
+        if finals(read_dir(out, case["nf"])) != ref:
+            return f"the re-run after a worker failure ({kind} {arg}) gives other final clusters than a fresh directory"
+    return None
+
+
+def suite_worker_crash(seed, tier):
+    rng = random.Random(seed + 14)
+    r = Result("worker-crash")
+    n_cfg = 2 if tier == "quick" else 12
+    for k in range(n_cfg):
+        case = gen_mr_case(rng, nfiles=rng.choice([3, 4, 5]))
+        case["cfg"]["rounds"] = max(1, case["cfg"]["rounds"])
+        case["cfg"]["bin"] = 2
+        procs = rng.choice([2, 3])
+        scen = [("truncated-input", rng.randrange(len(case["files"]))), ("save-fails", 2)]
+        if tier != "quick":
+            scen.append(("save-fails", 1))
+        for sc in scen:
+            ctx_name = "fork" if sc[0] == "save-fails" or tier == "quick" else rng.choice(["fork", "forkserver"])
+            r.cases += 1
+            try:
+                v = worker_failure_violation(case, sc, procs, ctx_name)
+            except Exception as e:
+                v = f"scenario could not run: {type(e).__name__}: {e}"[:240]
+            if v:
+                r.bad.append({"suite": "worker-crash", "what": v, "case": case, "scenario": list(sc), "procs": procs,
+                              "ctx": ctx_name})
+    r.nontrivial = r.cases
+    r.stats = {"configurations": n_cfg, "scenarios": r.cases}
+    r.samples = [{"scenarios": ["truncated-input", "save-fails"], "processes": [2, 3]}]
+    return r
+
+
 # ------------------------------------------------------------------ search / replay
 def big_cluster_cases(rng):
     """workflows in which one cluster crosses a counter-width boundary (255 -> uint16 buffers,
@@ -613,7 +702,7 @@ def search_mr(which):
                                                for f in case["files"]]}
                     return {"violation": v, "big_cluster_seed": seed, "group_size": max(len(f) for f in case["files"]),
                             "case_summary": small}
-        suites = {"C05": [suite_mr_files], "C06": [suite_sched], "C14": [suite_crash]}[which]
+        suites = {"C05": [suite_mr_files], "C06": [suite_sched], "C14": [suite_crash, suite_worker_crash]}[which]
         # (the suites may not have run at all when the model did not build: start with this run's seed)
         for sd in (seed, seed + 1, seed + 2):
             for s in suites:
@@ -713,6 +802,9 @@ def replay_c14(payload):
     """crash at the recorded file action, re-run the recorded variant in the same directory and
     compare the final files with a fresh directory; True = property holds on this input"""
     fi = payload.get("failing_input")
+    if fi and "scenario" in fi and "case" in fi:
+        return worker_failure_violation(fi["case"], tuple(fi["scenario"]), fi.get("procs", 2),
+                                        fi.get("ctx", "fork")) is None
     if not fi or "case" not in fi or "crash_at" not in fi:
         return True
     case, cp, name = fi["case"], fi["crash_at"], fi.get("rerun", "same")
@@ -746,7 +838,7 @@ if __name__ == "__main__":
     import sys
     import time
     which = sys.argv[3] if len(sys.argv) > 3 else "files"
-    s = {"files": suite_mr_files, "sched": suite_sched, "crash": suite_crash}[which]
+    s = {"files": suite_mr_files, "sched": suite_sched, "crash": suite_crash, "wcrash": suite_worker_crash}[which]
     t0 = time.time()
     rr = s(int(sys.argv[1]) if len(sys.argv) > 1 else 1, sys.argv[2] if len(sys.argv) > 2 else "quick")
     print(rr.name, rr.cases, rr.nontrivial, len(rr.bad), rr.stats, "%.1fs" % (time.time() - t0))
